@@ -31,6 +31,15 @@ package c16
 //     seq_length = number of nucleotides) and otherwise unchanged; a record the
 //     criteria reject is either absent or written unchanged without the edit;
 //     nothing else is written; the input order is kept.
+//   - obiannotate with selection options is run on FASTA inputs only.  On a FASTQ
+//     input the unchanged tree writes FASTA (qualities lost) whenever the first
+//     batch that reaches the writer holds no selected record (WriteSequence picks
+//     the format from the first batch, SeqToSliceConditionalWorker leaves rejected
+//     batches empty; the FASTQ reader puts the last record of a small file in a
+//     batch of its own): `obiannotate -l 5 --length` on two FASTQ records of 4 and
+//     9 nt writes FASTA most of the time.  Reported to the coordinator; which
+//     output format an edited selection must have is the subject of the format
+//     properties, not of this one.
 
 import (
 	"fmt"
@@ -62,7 +71,7 @@ func init() {
 		"(several -r are alternatives, several occurrences of any other option all apply). " +
 		"Non-trivial: some option is given at least 3 times, EVERY one of its occurrences is decisive (removing that occurrence alone changes the selection the reference interpreter expects) " +
 		"and the selection is neither empty nor total. " +
-		"TestAnnotateSelected: obiannotate --length with the selection options of obigrep (half of the cases drawn as in TestGrepRepeated, half as in TestGrepSubsets; no mate file): " +
+		"TestAnnotateSelected: obiannotate --length with the selection options of obigrep (FASTA input; half of the cases drawn as in TestGrepRepeated, half as in TestGrepSubsets; no mate file): " +
 		"every record the criteria select is written with seq_length = its length and otherwise unchanged, a rejected record is absent or written unchanged without seq_length, nothing else is written, input order kept. " +
 		"Non-trivial: the selection is neither empty nor total."
 }
@@ -133,6 +142,206 @@ func (x *gOptCtx) lowClade(rt *rapid.T, p gRec) int {
 	return x.tree.Taxid[path[level]]
 }
 
+// ------------------------------------------------------------------ witnesses
+
+// gPalette lists the values the record generator can give to an annotation.
+func gPalette(key string) []gAttr {
+	var out []gAttr
+	add := func(a gAttr) { a.Key, a.Kind = key, gKindOfKey(key); out = append(out, a) }
+	switch key {
+	case "count":
+		for _, v := range []int{1, 2, 3, 4, 6} {
+			add(gAttr{I: v})
+		}
+	case "un", "n":
+		for v := -3; v <= 12; v++ {
+			add(gAttr{I: v})
+		}
+	case "uf", "f":
+		for _, v := range gFloatVals {
+			add(gAttr{F: v})
+		}
+	case "us", "k", "k2":
+		for _, v := range gStrVals {
+			add(gAttr{S: v})
+		}
+	case "ub", "b":
+		add(gAttr{B: false})
+		add(gAttr{B: true})
+	case "um":
+		for _, xv := range []int{0, 1, 2, 3, 4} {
+			for _, yv := range []int{0, 2, 4} {
+				add(gAttr{M: map[string]int{"x": xv, "y": (yv + xv) % 5}})
+			}
+		}
+	case "m":
+		for _, m := range []map[string]int{{}, {"x": 0}, {"x": 4}, {"y": 2}, {"z": 0}, {"x": 1, "y": 3, "z": 4}, {"x": 2, "z": 2}} {
+			add(gAttr{M: m})
+		}
+	}
+	return out
+}
+
+func gIsOptKey(key string) bool {
+	for _, k := range gOptKeys {
+		if k == key {
+			return true
+		}
+	}
+	return false
+}
+
+func (r gRec) withAttr(a gAttr) gRec {
+	out := r
+	out.Attrs = nil
+	done := false
+	for _, b := range r.Attrs {
+		if b.Key == a.Key {
+			b, done = a, true
+		}
+		out.Attrs = append(out.Attrs, b)
+	}
+	if !done {
+		out.Attrs = append(out.Attrs, a)
+	}
+	return out
+}
+
+func (r gRec) withoutAttr(key string) gRec {
+	out := r
+	out.Attrs = nil
+	for _, b := range r.Attrs {
+		if b.Key != key {
+			out.Attrs = append(out.Attrs, b)
+		}
+	}
+	return out
+}
+
+func (r gRec) withSeq(seq string) gRec {
+	out := r
+	out.Seq = seq
+	if r.Qual != "" {
+		q := r.Qual
+		for len(q) < len(seq) {
+			q += "I"
+		}
+		out.Qual = q[:len(seq)]
+	}
+	return out
+}
+
+func gIDBase(id string) string {
+	if i := strings.LastIndex(id, "_"); i >= 0 {
+		return id[:i]
+	}
+	return id
+}
+
+// gVariants lists, in a fixed order, the records that differ from p by ONE
+// feature the occurrences of option kind look at (same generator palettes as the
+// random records): a nucleotide substituted / removed / added, another
+// definition, another identifier base, an annotation removed or given another
+// value, another taxon.
+func gVariants(kind string, p gRec, uni []string, tree *ref.Tree) []gRec {
+	var out []gRec
+	seqVariants := func(lengthOnly bool) {
+		if !lengthOnly {
+			for i := 0; i < len(p.Seq); i++ {
+				for _, l := range "acgt" {
+					if byte(l) != p.Seq[i] {
+						out = append(out, p.withSeq(p.Seq[:i]+string(l)+p.Seq[i+1:]))
+					}
+				}
+			}
+		}
+		if len(p.Seq) > 1 {
+			out = append(out, p.withSeq(p.Seq[1:]), p.withSeq(p.Seq[:len(p.Seq)-1]))
+		}
+		for _, l := range "acgt" {
+			out = append(out, p.withSeq(p.Seq+string(l)), p.withSeq(string(l)+p.Seq))
+		}
+	}
+	defVariants := func() {
+		defs := []string{""}
+		for _, w := range gWords {
+			defs = append(defs, w)
+		}
+		for _, w := range gWords {
+			for _, v := range gWords {
+				defs = append(defs, w+" "+v)
+			}
+		}
+		words := strings.Fields(p.Def)
+		for i := range words {
+			for _, w := range gWords {
+				alt := append([]string{}, words...)
+				alt[i] = w
+				defs = append(defs, strings.Join(alt, " "))
+			}
+		}
+		for _, d := range defs {
+			if d != p.Def {
+				q := p
+				q.Def = d
+				out = append(out, q)
+			}
+		}
+	}
+	idVariants := func() {
+		var rec func(prefix string)
+		rec = func(prefix string) {
+			if prefix != "" && prefix != gIDBase(p.ID) {
+				q := p
+				q.ID = prefix + "_"
+				out = append(out, q)
+			}
+			if len(prefix) < 3 {
+				for _, l := range "ab1" {
+					rec(prefix + string(l))
+				}
+			}
+		}
+		rec("")
+	}
+	attrVariants := func(keys []string) {
+		for _, k := range keys {
+			cur, has := p.attr(k)
+			if has && gIsOptKey(k) {
+				out = append(out, p.withoutAttr(k))
+			}
+			if !has && !gIsOptKey(k) {
+				continue // a universal key the case does not use
+			}
+			for _, a := range gPalette(k) {
+				if !has || a.json() != cur.json() {
+					out = append(out, p.withAttr(a))
+				}
+			}
+		}
+	}
+	switch kind {
+	case "-s":
+		seqVariants(false)
+	case "-D":
+		defVariants()
+	case "-I":
+		idVariants()
+	case "-A", "-a":
+		attrVariants(append(append([]string{}, uni...), gOptKeys...))
+	case "-p":
+		attrVariants(append(append([]string{}, uni...), gOptKeys...))
+		seqVariants(true)
+		defVariants()
+		idVariants()
+	case "-r", "-i", "--require-rank":
+		for i := 0; i < tree.N(); i++ {
+			out = append(out, p.withAttr(gAttr{Key: "taxid", Kind: "i", I: tree.Taxid[i]}))
+		}
+	}
+	return out
+}
+
 // ------------------------------------------------------------------ the case
 
 func genGrepRepeatCase(rt *rapid.T, label string, pairedOK bool) grepCase {
@@ -158,14 +367,17 @@ func genGrepRepeatCase(rt *rapid.T, label string, pairedOK bool) grepCase {
 		}
 	}
 	var kinds []string
+	repeated := 0 // occurrences of options given several times: each one gets a witness record
 	for _, k := range gOptKinds {
 		for i := 0; i < count[k]; i++ {
 			kinds = append(kinds, k)
 		}
+		if count[k] >= 2 {
+			repeated += count[k]
+		}
 	}
 	if rapid.Bool().Draw(rt, "interleaved") {
-		perm := rapid.Permutation(kinds).Draw(rt, "option_order")
-		kinds = perm
+		kinds = rapid.Permutation(kinds).Draw(rt, "option_order")
 	}
 	needTax := false
 	for _, k := range kinds {
@@ -184,13 +396,22 @@ func genGrepRepeatCase(rt *rapid.T, label string, pairedOK bool) grepCase {
 	ctx.lens = []int{rapid.IntRange(1, 30).Draw(rt, "len1"), rapid.IntRange(4, 30).Draw(rt, "len2")}
 	if needTax {
 		n := gen.Len(rt, "tax_n", 6, 30, 8, 12)
-		tr, _ := gen.Tree(rt, "tree", n, rapid.SampledFrom(gen.TreeShapes).Draw(rt, "shape"), 0, 0)
+		shapes := gen.TreeShapes
+		if count["-r"]+count["-i"] >= 3 { // room for several clades that are not nested
+			n = rapid.IntRange(12, 35).Draw(rt, "tax_n_clades")
+		}
+		if count["--require-rank"] >= 2 { // long lineages carrying many rank labels
+			n = rapid.IntRange(20, 45).Draw(rt, "tax_n_ranks")
+			shapes = []string{"deep", "deep", "random", "caterpillar", "broom", "binary"}
+		}
+		tr, _ := gen.Tree(rt, "tree", n, rapid.SampledFrom(shapes).Draw(rt, "shape"), 0, 0)
 		c.Tree = &tr
 		ctx.tree = &tr
 	}
 	nrec := rapid.SampledFrom([]int{6, 8, 8, 10, 12, 12, 14, 16}).Draw(rt, "n_records")
+	nrec = max(nrec, repeated+3) // the passer, one witness per occurrence, at least two unrelated records
 	if evid.Thorough() && rapid.IntRange(0, 3).Draw(rt, "many_records") == 0 {
-		nrec = rapid.IntRange(17, 40).Draw(rt, "n_records_large")
+		nrec = rapid.IntRange(nrec, 40).Draw(rt, "n_records_large")
 	}
 	dense := rapid.IntRange(0, 2).Draw(rt, "dense_annotations") > 0
 	densify := func(r gRec) gRec {
@@ -214,71 +435,212 @@ func genGrepRepeatCase(rt *rapid.T, label string, pairedOK bool) grepCase {
 	}
 
 	// ---- option values
-	x := gOptCtx{pool: append(append([]gRec{}, c.Recs...), c.Mates...), uni: ctx.uni, tree: ctx.tree}
-	var taxPivots []int
-	if needTax {
-		idx := make([]int, len(x.pool))
-		for i := range idx {
-			idx[i] = i
-		}
-		taxPivots = rapid.Permutation(idx).Draw(rt, "tax_pivots")
+	// One record, the "passer", is chosen; every value is the first of a few candidates
+	// (drawn by the value generators from the passer or from any record) that accepts the
+	// passer, so that the conjunction of many occurrences is not empty.  The occurrences
+	// of -r are alternatives: the first one is built on the passer's lineage, the
+	// following ones on the lineages of other records.  Among the candidates that accept
+	// the passer, the one that leaves the most occurrences of the same option with a
+	// potential witness (see below) is kept.  A bounded choice, not a rejection loop.
+	idx := make([]int, len(c.Recs))
+	for i := range idx {
+		idx[i] = i
 	}
-	nTax := 0
-	usedA := map[string]bool{}
-	broad := func() bool { return rapid.IntRange(0, 2).Draw(rt, "broad") > 0 }
-	effective := false
-	for _, k := range kinds {
-		o := gOpt{Name: k, Long: rapid.IntRange(0, 3).Draw(rt, "long_name") == 0}
-		switch k {
-		case "-l", "-L":
-			o.Val = strconv.Itoa(gAround(rt, len(x.pivot(rt).Seq)))
-		case "-c", "-C":
-			o.Val = strconv.Itoa(gAround(rt, x.pivot(rt).gCount()))
-		case "-s":
-			if broad() {
-				o.Val = x.broadSeqPattern(rt)
-			} else {
-				o.Val = x.seqPattern(rt)
+	roles := rapid.Permutation(idx).Draw(rt, "roles")
+	// the passer is given enough substance for several independent criteria of the repeated options
+	{
+		p := &c.Recs[roles[0]]
+		if count["-D"] >= 2 && len(strings.Fields(p.Def)) < 2 {
+			w := rapid.SliceOfN(rapid.SampledFrom(gWords), 2, 3).Draw(rt, "passer_def")
+			p.Def = strings.Join(w, " ")
+		}
+		if count["-I"] >= 2 {
+			base := rapid.StringOfN(rapid.SampledFrom([]rune("ab1")), 2, 3, -1).Draw(rt, "passer_id_base")
+			p.ID = base + "_" + strconv.Itoa(roles[0])
+			if paired {
+				c.Mates[roles[0]].ID = p.ID
 			}
-		case "-D":
-			if broad() {
-				o.Val = x.broadDefPattern(rt)
-			} else {
-				o.Val = x.defPattern(rt)
-			}
-		case "-I":
-			if broad() {
-				o.Val = x.broadIDPattern(rt)
-			} else {
-				o.Val = x.idPattern(rt)
-			}
-		case "-A":
-			o.Val = x.attrKey(rt)
-		case "-a":
-			v, _ := x.attrPattern(rt, usedA)
-			o.Val = v
-		case "-p":
-			o.Expr = x.expr(rt, 1)
-		case "--id-list":
-			for _, r := range c.Recs {
-				if rapid.IntRange(0, 3).Draw(rt, "listed") > 0 {
-					c.IDList = append(c.IDList, r.ID)
+		}
+		if count["-s"] >= 2 && len(p.Seq) < 8 {
+			*p = p.withSeq(gDrawSeq(rt, "passer_seq", rapid.IntRange(8, 30).Draw(rt, "passer_len"), false))
+		}
+		if count["-A"] >= 2 || count["-a"] >= 2 {
+			for _, k := range gOptKeys {
+				if _, has := p.attr(k); !has && rapid.IntRange(0, 3).Draw(rt, "passer_has_"+k) > 0 {
+					p.Attrs = append(p.Attrs, gDrawAttr(rt, k))
 				}
 			}
-			if rapid.IntRange(0, 3).Draw(rt, "junk") == 0 {
-				c.IDList = append(c.IDList, "zz_99")
+		}
+	}
+	passer := c.Recs[roles[0]]
+	slots := roles[1:] // where the witnesses go
+	x := gOptCtx{pool: append(append([]gRec{}, c.Recs...), c.Mates...), uni: ctx.uni, tree: ctx.tree}
+	xp := x
+	xp.pool = []gRec{passer}
+	passes := func(o gOpt, r gRec) bool {
+		s := gSelection{Opts: []gOpt{o}, IDList: c.IDList, Tree: c.Tree}
+		ok, _, err := s.keepOne(r)
+		return err == nil && ok
+	}
+	usedA := map[string]bool{}
+	candidate := func(k string, target gRec) gOpt {
+		o := gOpt{Name: k}
+		src := &xp
+		if rapid.IntRange(0, 3).Draw(rt, "value_from_any_record") == 0 {
+			src = &x
+		}
+		broad := rapid.IntRange(0, 2).Draw(rt, "broad") > 0
+		switch k {
+		case "-l", "-L":
+			o.Val = strconv.Itoa(gAround(rt, len(src.pivot(rt).Seq)))
+		case "-c", "-C":
+			o.Val = strconv.Itoa(gAround(rt, src.pivot(rt).gCount()))
+		case "-s":
+			if broad {
+				o.Val = src.broadSeqPattern(rt)
+			} else {
+				o.Val = src.seqPattern(rt)
 			}
-			c.IDListNoEOL = rapid.IntRange(0, 3).Draw(rt, "no_final_newline") == 0
+		case "-D":
+			if broad {
+				o.Val = src.broadDefPattern(rt)
+			} else {
+				o.Val = src.defPattern(rt)
+			}
+		case "-I":
+			if broad {
+				o.Val = src.broadIDPattern(rt)
+			} else {
+				o.Val = src.idPattern(rt)
+			}
+		case "-A":
+			o.Val = src.attrKey(rt)
+		case "-a":
+			u := map[string]bool{}
+			for key := range usedA {
+				u[key] = true
+			}
+			o.Val, _ = src.attrPattern(rt, u)
+		case "-p":
+			o.Expr = src.expr(rt, 1)
 		case "-r", "-i":
-			if rapid.IntRange(0, 5).Draw(rt, "clade_free") == 0 {
+			switch f := rapid.IntRange(0, 7).Draw(rt, "clade_from"); {
+			case f == 0:
 				o.Val = strconv.Itoa(x.cladeOf(rt))
-			} else { // successive occurrences look at distinct records
-				o.Val = strconv.Itoa(x.lowClade(rt, x.pool[taxPivots[nTax%len(taxPivots)]]))
-				nTax++
+			case f <= 3 && target.ID != passer.ID && c.Tree.N() > 1: // any node but the root (the witnesses can take any taxon)
+				o.Val = strconv.Itoa(c.Tree.Taxid[rapid.IntRange(1, c.Tree.N()-1).Draw(rt, "clade_node")])
+			default:
+				o.Val = strconv.Itoa(x.lowClade(rt, target))
 			}
 		case "--require-rank":
 			o.Val = rapid.SampledFrom(c.Tree.Ranks()).Draw(rt, "rank")
 		}
+		return o
+	}
+	// variants of the passer (one feature changed) and, for every value chosen so far, which
+	// variants it accepts: an occurrence has a potential witness when some variant is decided
+	// by it alone among the occurrences of the same option
+	kindVariants := map[string][]gRec{}
+	variantsOf := func(k string) []gRec {
+		v, done := kindVariants[k]
+		if !done {
+			v = gVariants(k, passer, ctx.uni, c.Tree)
+			kindVariants[k] = v
+		}
+		return v
+	}
+	vectors := map[string][][]bool{}
+	vector := func(o gOpt) []bool {
+		vs := variantsOf(o.Name)
+		out := make([]bool, len(vs))
+		for i, v := range vs {
+			out[i] = passes(o, v)
+		}
+		return out
+	}
+	witnessed := func(kind string, all [][]bool) int {
+		n := 0
+		for i := range all {
+			for v := range all[i] {
+				alone := true
+				for h := range all {
+					// and-semantics: variant rejected by i, accepted by the others; -r: the reverse
+					if all[h][v] != ((h != i) != (kind == "-r")) {
+						alone = false
+						break
+					}
+				}
+				if alone {
+					n++
+					break
+				}
+			}
+		}
+		return n
+	}
+	score := func(o gOpt, first bool) (int, []bool) {
+		sc := 0
+		if passes(o, passer) || (o.Name == "-r" && !first) {
+			sc += 8
+		}
+		if count[o.Name] < 2 {
+			return sc + 1, nil
+		}
+		vec := vector(o)
+		return sc + witnessed(o.Name, append(append([][]bool{}, vectors[o.Name]...), vec)), vec
+	}
+	occurrence := map[string]int{}
+	effective := false
+	for _, k := range kinds {
+		var o gOpt
+		if k == "--id-list" {
+			// the passer, most of the identifiers the witnesses will get (base of the passer, rank of the slot), other records
+			o = gOpt{Name: k}
+			c.IDList = append(c.IDList, passer.ID)
+			for i, r := range c.Recs {
+				if i != roles[0] && rapid.Bool().Draw(rt, "listed") {
+					c.IDList = append(c.IDList, r.ID)
+				}
+				if i != roles[0] && rapid.IntRange(0, 3).Draw(rt, "witness_listed") > 0 {
+					c.IDList = append(c.IDList, gIDBase(passer.ID)+"_"+strconv.Itoa(i))
+				}
+			}
+			if rapid.Bool().Draw(rt, "shuffled_list") {
+				c.IDList = rapid.Permutation(c.IDList).Draw(rt, "list_order")
+			}
+			c.IDListNoEOL = rapid.IntRange(0, 3).Draw(rt, "no_final_newline") == 0
+		} else {
+			j := occurrence[k]
+			occurrence[k]++
+			best, full := -1, 8+max(1, j+1)
+			if count[k] < 2 {
+				full = 9
+			}
+			var bestVec []bool
+			tries := 8
+			if gIsTax(k) {
+				tries = 12 // cheap candidates
+			}
+			for m := 0; m < tries && best < full; m++ {
+				target := passer
+				if k == "-i" || (k == "-r" && j > 0) {
+					target = c.Recs[slots[rapid.IntRange(0, len(slots)-1).Draw(rt, "clade_record")]]
+				}
+				cand := candidate(k, target)
+				if sc, vec := score(cand, j == 0); sc > best {
+					best, o, bestVec = sc, cand, vec
+				}
+			}
+			if bestVec != nil {
+				vectors[k] = append(vectors[k], bestVec)
+			}
+			switch k {
+			case "-a":
+				key, _, _ := strings.Cut(o.Val, "=")
+				usedA = map[string]bool{key: true}
+			}
+		}
+		o.Long = rapid.IntRange(0, 3).Draw(rt, "long_name") == 0
 		switch k {
 		case "-l", "-c":
 			if n, _ := strconv.Atoi(o.Val); n > 1 {
@@ -288,6 +650,53 @@ func genGrepRepeatCase(rt *rapid.T, label string, pairedOK bool) grepCase {
 			effective = true
 		}
 		c.Opts = append(c.Opts, o)
+	}
+
+	// ---- witnesses
+	// For every occurrence of an option given several times, a record is built that
+	// differs from the passer by one feature (gVariants) and whose verdict hinges on this
+	// occurrence alone: with it and without it the reference interpreter decides
+	// differently.  The variants are scanned in their fixed order from a drawn starting
+	// point; the first suitable one replaces an unrelated record (it keeps the rank of
+	// the slot in its identifier).  No suitable variant: the slot keeps its random record.
+	verdict := func(opts []gOpt, r gRec) (bool, bool) {
+		s := gSelection{Opts: opts, IDList: c.IDList, Tree: c.Tree}
+		ok, _, err := s.keepOne(r)
+		return ok, err == nil
+	}
+	free := append([]int{}, slots...)
+	for j, o := range c.Opts {
+		if count[o.Name] < 2 || len(free) <= 2 {
+			continue
+		}
+		variants := variantsOf(o.Name)
+		if len(variants) == 0 {
+			continue
+		}
+		start := rapid.IntRange(0, len(variants)-1).Draw(rt, "variant_start")
+		without := append(append([]gOpt{}, c.Opts[:j]...), c.Opts[j+1:]...)
+		placed := false
+		for si := 0; si < min(3, len(free)) && !placed; si++ {
+			slot := free[si]
+			for vi := range variants {
+				v := variants[(start+vi)%len(variants)]
+				v.ID = gIDBase(v.ID) + "_" + strconv.Itoa(slot)
+				if passes(o, v) != (o.Name == "-r") {
+					continue // accepted by this occurrence (for -r: not in this clade)
+				}
+				with, ok1 := verdict(c.Opts, v)
+				wo, ok2 := verdict(without, v)
+				if ok1 && ok2 && with != wo {
+					c.Recs[slot] = v
+					if paired {
+						c.Mates[slot].ID = v.ID
+					}
+					free = append(free[:si], free[si+1:]...)
+					placed = true
+					break
+				}
+			}
+		}
 	}
 
 	// ---- the rest of the command line (as genGrepCase)
@@ -561,6 +970,10 @@ func TestAnnotateSelected(t *testing.T) {
 			c = genGrepCase(rt, gPlan{Label: "annotate-subset", Paired: -1})
 		}
 		c.SaveDiscarded, c.OutFile = false, false
+		c.Fastq = false // FASTA inputs only (Domain decisions)
+		for i := range c.Recs {
+			c.Recs[i].Qual = ""
+		}
 		_, classes := gRepeatClasses(&c)
 		some := false
 		for i, l := range classes {
